@@ -21,6 +21,7 @@ import PoetryVerif.Proofs.MarkerAlgSoundVerMk
 import PoetryVerif.Proofs.MarkerAlgSoundPv
 import PoetryVerif.Proofs.MarkerAlgSoundPfv
 import PoetryVerif.Proofs.MarkerAlgSoundPyInv
+import PoetryVerif.Proofs.MarkerAlgSoundPr
 import PoetryVerif.Proofs.PyConvPairFinal
 import PoetryVerif.Proofs.MarkerPrint
 
@@ -561,6 +562,53 @@ example : EnvPy exEnvFull 3 9 1 ∧ M.Good (FullLeaf exEnvFull) (.leaf (.single 
     M.Good (FullLeaf exEnvFull) (.leaf (.single (pvLeafOf .ge ">=" 3 8))) :=
   ⟨⟨by decide, by decide⟩, (M.good_leaf _).2 (Or.inr (Or.inr ⟨.lt, "<", 3, 10, 0, by decide, rfl⟩)),
     (M.good_leaf _).2 (Or.inr (Or.inl ⟨.ge, ">=", 3, 8, by decide, rfl⟩))⟩
+
+/-- **The constructor fact for `platform_release`, proved**: for a list `B` of release-number bounds (final
+releases of one to three components), `SingleMarker("platform_release", str(c))` for a simple constraint `c` over
+`B` re-reads to a leaf admitting every final release exactly when `c` does. -/
+theorem mkVerOK_platform_release {B : List Version} (hpb : ∀ e ∈ B, PyBound e = true) (X : Nat) (R : List Nat) :
+    MkVerOK B "platform_release" (litV X R) := mkVerOK_pr hpb X R
+
+/-- **Intersection, union and inversion with `platform_release` leaves added** — the full comparison-operator
+domain plus `platform_release` leaves whose constraints are well-formed over release-number bounds `B`
+(`platform_release <op> "x.y.z"` and what merges make of them), in environments whose `platform_release` is a
+release number: every fuel, every stack, no unproved hypothesis.  (A `platform_release` that is not a version
+makes poetry fall back to string comparison; that fallback is outside the model — `unmodelled`.) -/
+theorem intersect_union_sound_full_release {B : List Version} (hpb : ∀ e ∈ B, PyBound e = true)
+    {ex : List String} (hX : E.extras = some ex) {X Y Z : Nat} (hE : EnvPy E X Y Z) {P : Nat} {Q : List Nat}
+    (hP : E.get? "platform_release" = some (Version.relText (P :: Q))) {a b r : M}
+    (ha : M.Good (FullLeafR B E) a) (hb : M.Good (FullLeafR B E) b) :
+    (mIntersect fuel stk a b = .ok r →
+      M.Good (FullLeafR B E) r ∧ M.validate E r = .ok (holds E a && holds E b)) ∧
+    (mUnion fuel stk a b = .ok r →
+      M.Good (FullLeafR B E) r ∧ M.validate E r = .ok (holds E a || holds E b)) :=
+  ⟨fun h => by
+      have := intersect_sound_partial (leafSpec_fullR hpb hX hE hP (pairSound_py hE))
+        (fun l hl => fullLeafR_evaluable hpb hX hE hP hl) ha hb h
+      exact ⟨this.1, this.2.2⟩,
+   fun h => by
+      have := union_sound_partial (leafSpec_fullR hpb hX hE hP (pairSound_py hE))
+        (fun l hl => fullLeafR_evaluable hpb hX hE hP hl) ha hb h
+      exact ⟨this.1, this.2.2⟩⟩
+
+theorem invert_sound_full_release {B : List Version} (hpb : ∀ e ∈ B, PyBound e = true)
+    {ex : List String} (hX : E.extras = some ex) {X Y Z : Nat} (hE : EnvPy E X Y Z) {P : Nat} {Q : List Nat}
+    (hP : E.get? "platform_release" = some (Version.relText (P :: Q))) {a r : M}
+    (ha : M.Good (FullInvReadyR B E) a) (h : a.invert = .ok r) :
+    M.Good (FullInvLeafR B E) r ∧ M.validate E r = .ok (!holds E a) := by
+  have := M.invert_sound_fullR hpb hX hE hP (pairSound_py hE) ha h
+  refine ⟨this.1, ?_⟩
+  rw [holds_is_validate E r (M.good_mono (fun l hl => fullInvLeafR_evaluable hpb hX hE hP hl) r this.1)]
+  exact congrArg _ this.2
+
+/-- `SingleMarker("platform_release", ">=5.10")` is `platform_release >= "5.10"`, a leaf of the domain over the
+bound `5.10`; it inverts to `platform_release < "5.10"` -/
+example : mkSingle "platform_release" ">=5.10" false = .ok (prLeafOf .ge ">=" 5 [10]) ∧
+    PrLeafIn [litV 5 [10]] (.single (prLeafOf .ge ">=" 5 [10])) ∧
+    Leaf.invert (.single (prLeafOf .ge ">=" 5 [10])) = .ok (.leaf (.single (prLeafOf .lt "<" 5 [10]))) := by
+  have t1 : ">=" ++ Version.relText [5, 10] = ">=5.10" := by decide
+  exact ⟨t1 ▸ mkSingle_prLeaf (sop := .ge) (ops := ">=") (by decide) 5 [10],
+    ⟨.ge, ">=", 5, [10], by decide, by simp, rfl⟩, invert_pr (by decide) 5 [10]⟩
 
 /-- the leaf facts that remain hypotheses outside the string fragment, as one visible statement:
 version-like variables (through C05's exactness on regular probes), the
